@@ -2,8 +2,8 @@
    Asp/Ground.v: ground programs of the emitted class and their stable models; hierarchical_stable is the characterisation
    used for the core fragment.  Cnl/Core.v: the core fragment F0, its compile model (byte-exact on F0), grounding, and the reading. *)
 Require Import Coq.Strings.String Coq.Lists.List Coq.Bool.Bool.
-Require Import Coq.ZArith.ZArith.
-Require Import Cnl2aspV.Asp.Ground Cnl2aspV.Cnl.Core Cnl2aspV.Cnl.CoreProofs.
+Require Import Coq.ZArith.ZArith Lia.
+Require Import Cnl2aspV.Asp.Ground Cnl2aspV.Cnl.Core Cnl2aspV.Cnl.CoreProofs Cnl2aspV.Cnl.CoreOneOf.
 Import ListNotations.
 
 (* for hierarchical ground programs (no predicate depends on itself): I is a stable model iff it satisfies the constraints and
@@ -65,4 +65,32 @@ Example C01_single_clause_example :
 Proof.
   cbv zeta. repeat split; try (intros x [<-|[<-|[]]]; vm_compute; reflexivity); try discriminate;
     try (intros x Hx; vm_compute in Hx; vm_compute; tauto); vm_compute; reflexivity.
+Qed.
+
+(* ... and the same constraint restricted by "where X is one of v1, ..., vn" on its subject label: the copies of the rule (one
+   per value, with "X = v" appended) hold in I iff no pair whose subject is one of the listed values violates the sentence.
+   Extra hypotheses: the subject concept has integer values, and they and the listed values have fewer than 20 digits (the
+   printer of the model is exact there: show_Z / int_of round trip, Base/DigitsRoundtrip.v). *)
+Theorem C01_single_clause_one_of_partial :
+  forall (s : spec) (U : list string) (I : interp) (cl : clause) (required : bool) (vals : list Z),
+    cl_slabel cl <> cl_olabel cl ->
+    (forall x, In x U -> holds I (atom_text (cl_subj cl) [x]) = Util.mem_string x (dom_of s (cl_subj cl))) ->
+    (forall y, In y U -> holds I (atom_text (cl_obj cl) [y]) = Util.mem_string y (dom_of s (cl_obj cl))) ->
+    incl (dom_of s (cl_subj cl)) U -> incl (dom_of s (cl_obj cl)) U ->
+    (forall x, In x (dom_of s (cl_subj cl)) -> exists z, small z /\ x = Digits.show_Z z) ->
+    (forall v, In v vals -> small v) ->
+    constraints_ok I (flat_map (ground_rule U) (compile_sentence s (SOneOf (cl_slabel cl) vals (SCons required [] [cl] None)))) =
+    r_sentence s I (SOneOf (cl_slabel cl) vals (SCons required [] [cl] None)).
+Proof. exact one_clause_one_of_correct. Qed.
+Print Assumptions C01_single_clause_one_of_partial.
+
+(* the additional hypotheses are satisfiable: rooms 1..2 are printed integers, the listed values are small *)
+Example C01_one_of_example :
+  let s := {| concepts := [{| c_name := "room"; c_key := "id"; c_dom := DRange 1 2 |}; {| c_name := "shelf"; c_key := "id"; c_dom := DRange 1 1 |}];
+              sentences := [] |} in
+  (forall x, In x (dom_of s "room") -> exists z, small z /\ x = Digits.show_Z z) /\ (forall v, In v [1; 3]%Z -> small v).
+Proof.
+  cbv zeta. split.
+  - intros x Hx. vm_compute in Hx. destruct Hx as [<-|[<-|[]]]; [exists 1%Z|exists 2%Z]; (split; [unfold small; lia|reflexivity]).
+  - intros v [<-|[<-|[]]]; unfold small; lia.
 Qed.
